@@ -137,13 +137,34 @@ def _staged_writes(staged, ptr, size, line):
     return out
 
 
-def extract_ops(effects, direction):
-    """effect tree -> op tree"""
+def extract_ops(effects, direction, unstage=False):
+    """effect tree -> op tree.  unstage (reader views): statements that copy out of a heap / local buffer (`lv = buf[e]`,
+    memcpy(dst, buf + e, n)) become pseudo-ops {"op": "unstage"}; the consumer pairs them with the read that filled the buffer."""
     ops = []
     sections = {}   # props object term -> op dict
     staged = {}     # private staging buffer -> [(byte offset, byte length, source pointer)]
     for x in effects:
         e = x["e"]
+        if unstage and e == "store" and x["op"] == "=" and isinstance(x.get("val"), tuple):
+            val = x["val"]
+            while val[0] == "cast":
+                val = val[2]
+            if val[0] == "idx":
+                sr = _staging_root(sym.addr(val))
+                if sr is not None:
+                    ops.append({"op": "unstage", "dst": sym.addr(x["lv"]), "src": sym.addr(val), "size": I(sr[2]), "es": sr[2], "l": x["l"]})
+                    continue
+        if unstage and e == "call" and x["name"] in ("memcpy", "std::memcpy", "memmove") and len(x["args"]) == 3 and x["args"][1] is not None:
+            src = x["args"][1]
+            while src[0] == "cast":
+                src = src[2]
+            sr = _staging_root(src)
+            if sr is not None and x["args"][0] is not None:
+                dst = x["args"][0]
+                while dst[0] == "cast":
+                    dst = dst[2]
+                ops.append({"op": "unstage", "dst": dst, "src": src, "size": x["args"][2], "es": sr[2], "l": x["l"]})
+                continue
         if e == "call" and x["name"] in ("memcpy", "std::memcpy", "memmove") and len(x["args"]) == 3 and x["args"][0] is not None:
             sr = _staging_root(x["args"][0])
             if sr is not None:
@@ -201,23 +222,23 @@ def extract_ops(effects, direction):
                 sections[obj] = sec
                 ops.append(sec)
         elif e == "inlined":
-            sub = extract_ops(x["body"], direction)
+            sub = extract_ops(x["body"], direction, unstage)
             ops.extend(sub)
-        elif e == "loop" and _staging_fill(x) is not None:
+        elif e == "loop" and not unstage and _staging_fill(x) is not None:
             sr, seg = _staging_fill(x)
             staged.setdefault(sr, []).append(seg)
         elif e == "loop":
-            sub = extract_ops(x["body"], direction)
+            sub = extract_ops(x["body"], direction, unstage)
             if sub:
                 ops.append({"op": "rep", "var": x["var"], "lo": x["lo"], "cmp": x["cmp"], "hi": x["hi"],
                             "step": x["step"], "body": sub, "l": x["l"]})
         elif e == "while":
-            sub = extract_ops(x["body"], direction)
+            sub = extract_ops(x["body"], direction, unstage)
             if sub:
                 ops.append({"op": "while", "cond": x["cond"], "body": sub, "l": x["l"]})
         elif e == "if":
-            th = extract_ops(x["then"], direction)
-            el = extract_ops(x["else"], direction)
+            th = extract_ops(x["then"], direction, unstage)
+            el = extract_ops(x["else"], direction, unstage)
             if th or el:
                 ops.append({"op": "if", "cond": x["cond"], "then": th, "else": el, "l": x["l"]})
     return ops
